@@ -147,6 +147,12 @@ func ancRace(cfg *concCfg) bool {
 		for b := a + 1; b < len(cfg.Progs); b++ {
 			for _, oa := range cfg.Progs[a] {
 				for _, ob := range cfg.Progs[b] {
+					if oa.K == "Rename" && ob.K == "Rename" {
+						// renames are serialised among themselves (one rename lock, as in the kernel): two of them
+						// are never an ancestor race, whatever their operands.
+						continue
+					}
+
 					if pairRel(oa, ob) == "anc" {
 						return true
 					}
@@ -262,7 +268,7 @@ func dropKnownPairs(c *sim.Ctx, cfg *concCfg, prop string) {
 						bad = true
 					}
 
-					if _, ok := c.Known[prop+"|"+cfg.FS+ancRaceSig]; ok && pairRel(o, k) == "anc" {
+					if _, ok := c.Known[prop+"|"+cfg.FS+ancRaceSig]; ok && pairRel(o, k) == "anc" && !(o.K == "Rename" && k.K == "Rename") {
 						bad = true
 					}
 
